@@ -196,6 +196,7 @@ def standard_sequences(rng, p, q, twins=None):
         ("q-p-p", [("new", q), ("new", p), ("new", p)]),
         ("in-place", [("same", q), ("same", p), ("again",), ("same", q), ("again",)]),
         ("in-place-then-new", [("same", p), ("new", p), ("same", q), ("new", p)]),
+        ("array-forms", [("new", p), ("view", p), ("rev", p), ("view", q), ("rev", p)]),
     ]
     if twins is not None:
         a, b = twins
@@ -211,10 +212,12 @@ def light_sequences(p, q, n_params=0):
         ("repeat-same-object", [("same", p), ("again",), ("new", p)]),
         ("in-place", [("same", q), ("same", p), ("again",), ("same", q)]),
         ("p-q-p", [("new", p), ("new", q), ("new", p)]),
+        ("array-forms", [("new", p), ("view", p), ("rev", p), ("view", q), ("rev", p), ("same", p)]),
     ]
     if n_params:
         seqs.append(("parameter-change", [("new", p), ("set", 0, 2.75), ("new", p), ("same", p), ("set", 0, -0.5),
-                                          ("again",), ("new", q)]))
+                                          ("again",), ("new", q), ("set", 0, 1.0), ("new", p), ("set", 0, 0.0), ("new", p),
+                                          ("set", 0, -2.75), ("again",), ("set", 0, 2.75), ("new", q)]))
     return seqs
 
 
@@ -237,9 +240,19 @@ def run_steps(fn, steps, params):
             else:
                 buf[:] = cur
             arg = buf
+        elif st[0] == "view":      # non-contiguous view (every second element of a larger buffer)
+            cur = [float(a) for a in st[1]]
+            big = np.full(2 * len(cur) + 1, 123.0)
+            big[0:2 * len(cur):2] = cur
+            arg = big[0:2 * len(cur):2]
+        elif st[0] == "rev":       # negative-stride view
+            cur = [float(a) for a in st[1]]
+            arg = np.array(cur[::-1], dtype=float)[::-1]
         else:  # again
             arg = buf if buf is not None else np.array(cur, dtype=float)
         res = grab(lambda: np.array(fn(arg), dtype=float, copy=True))
+        if not isinstance(res, str) and not np.array_equal(np.asarray(arg, dtype=float), np.array(cur, dtype=float)):
+            res = "raise:InputArrayMutatedByCallable"
         out.append((si, list(cur), tuple(float(np.asarray(p.value)) for p in params), res))
     return out
 
@@ -425,6 +438,51 @@ def wrappers(U):
     ]
 
 
+TYPED = [("int", 3), ("float", 0.5), ("int8", np.int8(-3)), ("uint8", np.uint8(200)), ("uint16", np.uint16(40000)),
+         ("uint64", np.uint64(7)), ("int64", np.int64(-2)), ("f16", np.float16(0.5)), ("f32", np.float32(1.5)),
+         ("f64", np.float64(-2.0)), ("0d", np.array(2.0)), ("0dint", np.array(3)), ("0duint8", np.array(250, dtype=np.uint8)),
+         ("bool", True), ("npbool", np.bool_(True))]
+# 1e-300 cannot go through the driver (Alg.ratToFloat overflows its denominator): 1e-280 is the smallest magnitude used
+MAGNITUDES = [0.0, 1e-280, -1e-12, 1e-9, 9.9e-9, 1.1e-8, 1e-7, 1e8, 1e16, -1e16, 3e20, 2.0 ** 60]
+
+
+def extended_wrappers(U):
+    """operator forms (checklist 3, 4, 1, 2): every operator with the node in BOTH operand positions, reflected
+    subtraction / division / power, nested scalar-affine wrappers around `c - f`, compound constant-valued
+    sub-expressions and Parameters as coefficient / offset / exponent / denominator, constants of every numeric type
+    and magnitude"""
+    from optyx.core.expressions import BinaryOp, Constant, UnaryOp
+
+    p, q = U.params[0], U.params[1]
+    a = U.scalars[0]
+    sinC = UnaryOp(Constant(0.5), "sin")
+    W = [
+        ("c/", lambda e: 2.0 / e), ("c**", lambda e: Constant(1.5) ** e), ("**2", lambda e: e ** 2), ("**1", lambda e: e ** 1),
+        ("**0", lambda e: e ** 0), ("**-1", lambda e: e ** -1.0), ("k(c-)", lambda e: 3.0 * (1.0 - e)), ("(c-)-0", lambda e: (1.0 - e) - 0.0),
+        ("-(c-k*)", lambda e: -(3.0 - 2.0 * e)), ("(c-)/k", lambda e: (5.0 - e) / 2.0), ("k(c-)+c", lambda e: 2.0 * (1.0 - e) + 3.0),
+        ("c-(c-)", lambda e: 1.0 - (2.0 - e)), ("c*(c*)", lambda e: 2.0 * (3.0 * e)), ("(*c)*c", lambda e: (e * 3.0) * 0.5),
+        ("-neg", lambda e: -(-e)), ("neg+c", lambda e: -e + 1.0), ("c-neg", lambda e: 2.0 - (-e)), ("(c+)-c", lambda e: (1.0 + e) - 4.0),
+        ("c*(+c)", lambda e: 2.0 * (e + 1.0)), ("(c*)+(c*)", lambda e: 2.0 * e + 3.0 * e), ("e-e", lambda e: e - e), ("e*e", lambda e: e * e),
+        ("(C+C)*", lambda e: (Constant(2.0) + Constant(1.0)) * e), ("*(C*C)", lambda e: e * (Constant(2.0) * Constant(0.5))),
+        ("sinC*", lambda e: sinC * e), ("+sinC", lambda e: e + sinC), ("sinC-", lambda e: sinC - e), ("/(C*C)", lambda e: e / (Constant(2.0) * Constant(2.0))),
+        ("**(C+C)", lambda e: e ** (Constant(1.0) + Constant(1.0))), ("a**0*", lambda e: (a ** 0) * e), ("0*a+", lambda e: 0.0 * a + e),
+        ("C-C+", lambda e: (Constant(3.0) - Constant(3.0)) + e), ("negC*", lambda e: (-Constant(2.0)) * e),
+        ("p-", lambda e: p - e), ("-p", lambda e: e - p), ("*p", lambda e: e * p), ("/p", lambda e: e / p), ("p*q*", lambda e: (p * q) * e),
+        ("**p", lambda e: (e * e + 1.0) ** p), ("p+(c*)", lambda e: p + 2.0 * e),
+    ]
+    for tn, t in TYPED:
+        W.append((f"C[{tn}]*", lambda e, t=t: BinaryOp(Constant(t), e, "*")))
+        W.append((f"*[{tn}]", lambda e, t=t: e * t))
+        W.append((f"C[{tn}]-", lambda e, t=t: BinaryOp(Constant(t), e, "-")))
+        W.append((f"+[{tn}]", lambda e, t=t: e + t))
+    for m in MAGNITUDES:
+        W.append((f"{m:g}*", lambda e, m=m: m * e))
+        W.append((f"*{m:g}", lambda e, m=m: e * m))
+        W.append((f"+{m:g}", lambda e, m=m: e + m))
+        W.append((f"{m:g}-", lambda e, m=m: m - e))
+    return W
+
+
 def order_cover_cases(U, what):
     """vectorised sums × ALL orderings of (the vector's elements + 1 or 2 foreign variables): the index
     arithmetic of the sparse closures (`indices`, `is_full`) depends on how the vector's elements sit inside V —
@@ -454,6 +512,175 @@ def order_cover_cases(U, what):
     return out
 
 
+def more_operands(U):
+    """every kind of vector-like / matrix-like object the API produces (checklist 5, 7): slices of slices, strided and
+    reversed views of views, length-1 vectors, diagonals, rows / columns of transposes, blocks and strided blocks of a
+    symmetric matrix (shared off-diagonal variables), 1×n / n×1 matrices, distinct views with equal labels"""
+    from optyx import MatrixVariable
+
+    x, w, M, S = U.x, U.w, U.M, U.S
+    T = MatrixVariable("T", 3, 3, symmetric=True)
+    A = MatrixVariable("A", 2, 3)
+    vecs = [("w[1:5][0:2]", w[1:5][0:2]), ("w[::2][::-1]", w[::2][::-1]), ("x[1:2]", x[1:2]), ("w[0:4:2]", w[0:4:2]), ("w[0:4:3]", w[0:4:3]),
+            ("diag(T)", T.diagonal()), ("diag(M)", M.diagonal()), ("T.T[0,:]", T.T[0, :]), ("T[:,1]", T[:, 1]), ("T[1,0:2]", T[1, 0:2]),
+            ("A.T[:,1]", A.T[:, 1]), ("A[0,::2]", A[0, ::2]), ("T[0:2,1:3][0,:]", T[0:2, 1:3][0, :]), ("T[::2,::2][:,1]", T[::2, ::2][:, 1]),
+            ("x[0:3]'", x[0:3]), ("x[0:3]''", x[0:3])]
+    mats = [("T", T), ("T.T", T.T), ("T[0:2,1:3]", T[0:2, 1:3]), ("T[::2,::2]", T[::2, ::2]), ("T[0:2,0:2]", T[0:2, 0:2]), ("T[1:3,0:2]", T[1:3, 0:2]),
+            ("T.T[0:2,:]", T.T[0:2, :]), ("A", A), ("A.T", A.T), ("A[0:1,:]", A[0:1, :]), ("A[:,0:1]", A[:, 0:1]), ("A.T[0:2,0:1]", A.T[0:2, 0:1]),
+            ("S.T", S.T), ("S[0:1,:]", S[0:1, :]), ("M[::-1,:]", M[::-1, :])]
+    return vecs, mats, T, A
+
+
+def audit_nodes(rng, U):
+    """nodes over the operand family above + magnitudes / numeric types of every stored number (checklist 1, 2, 5, 7, 9, 14)"""
+    from optyx.core import vectors as Vc
+    from optyx.core import matrices as Mx
+    from optyx.core.expressions import UnaryOp
+    from optyx.core.functions import sin
+
+    vecs, mats, T, A = more_operands(U)
+    x, y = U.x, U.y
+    nodes, skipped = [], {}
+
+    def add(tag, build):
+        try:
+            nodes.append((tag, build()))
+        except Exception as ex:  # noqa: BLE001 — a constructor that rejects the operand is not a derivative question
+            skipped[f"constructor:{type(ex).__name__}"] = skipped.get(f"constructor:{type(ex).__name__}", 0) + 1
+
+    for vn, v in vecs:
+        n = len(v)
+        add(f"vs:{vn}", lambda: Vc.VectorSum(v))
+        add(f"lc:{vn}", lambda: Vc.LinearCombination(np.array([2.0, -1.0, 0.5][:n]), v))
+        add(f"dotself:{vn}", lambda: Vc.DotProduct(v, v))
+        add(f"ps3:{vn}", lambda: Vc.VectorPowerSum(v, 3))
+        add(f"ps2:{vn}", lambda: Vc.VectorPowerSum(v, 2))
+        add(f"ustanh:{vn}", lambda: Vc.VectorUnarySum(v, "tanh"))
+        add(f"uslog:{vn}", lambda: Vc.VectorUnarySum(v, "log"))
+        add(f"qf:{vn}", lambda: Mx.QuadraticForm(v, np.array([[(i + 1.0) * (j - 1.0) + (0.5 if i == j else 0.0) for j in range(n)] for i in range(n)])))
+        add(f"l2:{vn}", lambda: Vc.L2Norm(v))
+        add(f"l1:{vn}", lambda: Vc.L1Norm(v))
+    # two distinct view objects with equal labels / equal elements, overlapping views of views
+    byname = dict(vecs)
+    for ln, rn in (("x[0:3]'", "x[0:3]''"), ("w[0:4:2]", "w[0:4:3]"), ("w[1:5][0:2]", "w[0:4:3]"), ("T.T[0,:]", "T[:,1]"), ("diag(T)", "T.T[0,:]"),
+                   ("T[1,0:2]", "T[0:2,1:3][0,:]"), ("T[1,0:2]", "T[::2,::2][:,1]")):
+        add(f"dot:{ln}.{rn}", lambda: Vc.DotProduct(byname[ln], byname[rn]))
+    for mn, m in mats:
+        add(f"msv:{mn}", lambda: m.sum())
+        add(f"fro:{mn}", lambda: Mx.FrobeniusNorm(m))
+        add(f"mse:{mn}*{mn}", lambda: (m * m).sum())
+        add(f"mse:2{mn}-1", lambda: (2.0 * m - 1.0).sum())
+        if m.shape[0] == m.shape[1]:
+            add(f"trace:{mn}", lambda: m.trace())
+    # matrix–vector products (also of a non-linear vector) in every vector position
+    Q3 = np.array([[1.0, 2.0, 0.0], [0.5, 1.0, -1.0], [0.0, 3.0, 2.0]])
+    sinx = Vc.VectorExpression([UnaryOp(v, "sin") for v in x])
+    mvps = [("Q@x", lambda: Mx.MatrixVectorProduct(Q3, x)), ("Q@sin", lambda: Mx.MatrixVectorProduct(Q3, sinx)), ("T@x", lambda: T @ x),
+            ("A.T@x[0:2]", lambda: A.T @ x[0:2]), ("x*y", lambda: x * y), ("x**2", lambda: x ** 2), ("sin(x)", lambda: sin(x))]
+    for mn, mk in mvps:
+        add(f"es:{mn}", lambda: mk().sum())
+        add(f"dot:{mn}.x", lambda: Vc.DotProduct(mk(), x))
+        add(f"dot:x.{mn}", lambda: Vc.DotProduct(x, mk()))
+        add(f"lc:{mn}", lambda: Vc.LinearCombination(np.array([1.0, -2.0, 0.5]), mk()))
+        add(f"l2:{mn}", lambda: Vc.L2Norm(mk()))
+        add(f"qf:{mn}", lambda: Mx.QuadraticForm(mk(), Q3))
+    # magnitudes and numeric types of stored numbers
+    mags = np.array([1e-280, -1e-12, 1e16])
+    add("lc:mag1", lambda: Vc.LinearCombination(mags, x))
+    add("lc:mag2", lambda: Vc.LinearCombination(np.array([3e20, 0.0, 9.9e-9]), x))
+    add("lc:mag3", lambda: Vc.LinearCombination(np.array([1.1e-8, 1e8, -1e-7]), x))
+    add("qf:mag", lambda: Mx.QuadraticForm(x, np.array([[1e-12, 1e8, 0.0], [0.0, -1e16, 1e-9], [3e20, 0.0, 1.0]])))
+    for tag, arr in (("list", [1, 2, 3]), ("int64", np.array([1, -2, 3])), ("uint8", np.array([200, 100, 250], dtype=np.uint8)),
+                     ("int8", np.array([-100, 100, 127], dtype=np.int8)), ("f32", np.array([0.5, 1.5, -2.0], dtype=np.float32)),
+                     ("f16", np.array([0.5, 1.5, -2.0], dtype=np.float16)), ("bool", np.array([True, False, True])),
+                     ("strided", np.arange(6.0)[::2]), ("negstride", np.array([3.0, 2.0, 1.0])[::-1]), ("fortran", np.asfortranarray(np.array([1.0, 2.0, 3.0])))):
+        add(f"lc:{tag}", lambda: Vc.LinearCombination(arr, x))
+    for tag, Q in (("int", np.array([[1, 2, 0], [0, 1, 0], [1, 0, 3]])), ("uint8", np.array([[200, 2, 0], [0, 255, 0], [1, 0, 3]], dtype=np.uint8)),
+                   ("f32", Q3.astype(np.float32)), ("fortran", np.asfortranarray(Q3)), ("transposed-view", Q3.T), ("strided", np.arange(36.0).reshape(6, 6)[::2, ::2]),
+                   ("list", [[1.0, 2.0, 0.0], [0.5, 1.0, -1.0], [0.0, 3.0, 2.0]])):
+        add(f"qf:{tag}", lambda: Mx.QuadraticForm(x, Q))
+    for tag, k in (("npint", np.int64(2)), ("npint3", np.int32(3)), ("f32", np.float32(0.5)), ("bool", True), ("uint8", np.uint8(3)), ("10", 10), ("-3", -3),
+                   ("0.25", 0.25), ("7.5", 7.5), ("1e-9", 1e-9), ("1+1e-9", 1.0 + 1e-9), ("2-", 2.0 - 2.0 ** -40)):
+        add(f"ps[{tag}]:x", lambda: Vc.VectorPowerSum(x, k))
+        add(f"ps[{tag}]:api", lambda: (x ** k).sum())
+    # the same compound sub-expression OBJECT at several places (DAG) and a Parameter inside vector nodes
+    s_ = x.sum()
+    d_ = Vc.DotProduct(x, x)
+    pz = U.params[0]
+    add("dag:s*s+sin(s)", lambda: s_ * s_ + UnaryOp(s_, "sin"))
+    add("dag:d/(d+1)", lambda: d_ / (d_ + 1.0))
+    add("dag:(s+1)*(s+1)", lambda: (lambda t: t * t)(s_ + 1.0))
+    add("par:lc(p*x)", lambda: Vc.LinearCombination(np.array([1.0, 2.0, -1.0]), pz * x))
+    add("par:dot(x,p*x)", lambda: Vc.DotProduct(x, x * pz))
+    add("par:l2(x-p)", lambda: Vc.L2Norm(x - pz))
+    return nodes, skipped
+
+
+def names_universe():
+    """objects whose names stress every name-keyed look-up (checklist 6): digit runs of different lengths, leading zeros,
+    names that are prefixes of one another, brackets / commas inside names, the same base name for a scalar and a
+    container, ≥ 11 elements (lexicographic ≠ natural order)"""
+    from optyx import Variable, VectorVariable, MatrixVariable
+    from optyx.core import vectors as Vc
+
+    v12 = VectorVariable("v", 12)
+    xs = [Variable(n) for n in ("x", "x1", "x01", "x10", "x1[0]", "a,b", "v", "v[1", "v[1]x", "m[0,1]x", "xx", "2x")]
+    xv = VectorVariable("x", 3)          # container with the same base name as the scalar "x"
+    m = MatrixVariable("x1", 2, 2)       # elements "x1[0,0]" next to the scalar "x1[0]"
+    out = []
+    lex = sorted(list(v12), key=lambda v: v.name)
+    for tag, e, own in (("vs", Vc.VectorSum(v12), list(v12)), ("ps3", Vc.VectorPowerSum(v12, 3), list(v12)), ("ussin", Vc.VectorUnarySum(v12, "sin"), list(v12)),
+                        ("dot", Vc.DotProduct(v12, v12[::-1]), list(v12)), ("ps3:v[2:12]", Vc.VectorPowerSum(v12[2:12], 3), list(v12)),
+                        ("lc", Vc.LinearCombination(np.arange(12.0) - 3.0, v12), list(v12))):
+        out.append((f"names:{tag}|natural|id", [e], own))
+        out.append((f"names:{tag}|lexicographic|id", [e], lex))
+        out.append((f"names:{tag}|lex+scalars|id", [e], sorted(lex + xs[:4], key=lambda v: v.name)))
+    sc = xs[0] * xs[1] + xs[2] * xs[3] * xs[4] + UnaryOpSin(xs[5]) * xs[6] + xs[7] * xs[8] - xs[9] * xs[10] + xs[11] ** 2
+    pool = xs + list(xv) + m.get_variables()
+    for tag, e in (("scalars", sc), ("scalar+container", sc + Vc.VectorPowerSum(xv, 2) * xs[0]), ("matrix", m.sum() * xs[4] + Vc.VectorSum(xv)),
+                   ("ps:x-container", Vc.VectorPowerSum(xv, 3)), ("msv:x1-container", m.sum())):
+        own = sorted({v.name: v for v in gen.expr_vars(e)}.values(), key=lambda v: v.name)
+        out.append((f"names:{tag}|sorted|id", [e], own))
+        out.append((f"names:{tag}|rev|id", [e], list(reversed(own))))
+        out.append((f"names:{tag}|pool|id", [e], pool))
+    return out
+
+
+def UnaryOpSin(v):
+    from optyx.core.expressions import UnaryOp
+
+    return UnaryOp(v, "sin")
+
+
+def deep_cases(U, depths=(399, 400, 401, 900)):
+    """depth (checklist 13): a vector node at the far end of left-deep / right-nested / zig-zag chains around every
+    `_RECURSION_THRESHOLD`; the chain alternates constant wrappers (jacobian_row propagates) and variable terms"""
+    from optyx.core import vectors as Vc
+
+    x = U.x
+    a = U.scalars[0]
+    out = []
+    for n in depths:
+        e = Vc.VectorPowerSum(x, 3)
+        for i in range(n):
+            e = e + 1.0 if i % 2 == 0 else e - 0.5
+        out.append((f"deep:const-left:{n}|own|id", [e], list(x)))
+        e = Vc.DotProduct(x, x)
+        for i in range(n):
+            e = e + a if i % 3 else e + x[i % 3] * 2.0
+        out.append((f"deep:var-left:{n}|own|id", [e], list(x) + [a]))
+        if n <= 401:
+            e = Vc.VectorUnarySum(x, "sin")
+            for i in range(n):
+                e = (1.0 + e) if i % 2 == 0 else (e * 1.0)
+            out.append((f"deep:zigzag:{n}|own|id", [e], [a] + list(x)))
+    return out
+
+
+AUDIT_SKIPPED = {}
+FULL = [False]
+
+
 def cell_cases(rng):
     U = gen.Universe(rng)
     nodes = row_nodes(rng, U)
@@ -471,6 +698,28 @@ def cell_cases(rng):
         for wn, wf in (wr[1], wr[4], wr[5], wr[10]):
             vt, V = alt[rng.randrange(len(alt))]
             cases.append((f"{vt}|{wn}", [wf(node)], V, U))
+    # audit families (operand kinds, magnitudes, numeric types, names, depth, extended operator forms)
+    ext = extended_wrappers(U)
+    anodes, askip = audit_nodes(rng, U)
+    AUDIT_SKIPPED.update(askip)
+    for tag, node in anodes:
+        own = own_vars(node)
+        cases.append((f"{tag}|own|id", [node], list(own), U))
+        cases.append((f"{tag}|rev+extra|id", [node], [U.scalars[2]] + list(reversed(own)), U))
+    for tag, es, V in names_universe():
+        cases.append((tag, es, V, U))
+    for tag, es, V in deep_cases(U, (399, 400, 401) if not FULL[0] else (399, 400, 401, 900)):
+        cases.append((tag, es, V, U))
+    allnodes = nodes + anodes
+    for ni, (tag, node) in enumerate(allnodes):
+        own = own_vars(node)
+        for wi, (wn, wf) in enumerate(ext):
+            if not FULL[0] and (ni + wi) % 16 != 0:
+                continue   # quick tier: every wrapper meets every node *kind* (≥ 9 nodes per kind), not every node
+            try:
+                cases.append((f"{tag}|own|{wn}", [wf(node)], list(own), U))
+            except Exception as ex:  # noqa: BLE001
+                AUDIT_SKIPPED[f"wrapper:{type(ex).__name__}"] = AUDIT_SKIPPED.get(f"wrapper:{type(ex).__name__}", 0) + 1
     cases += order_cover_cases(U, "jac")
     for tag, e in composition_exprs(U):
         own = sorted({v.name: v for v in gen.expr_vars(e)}.values(), key=lambda v: v.name)
@@ -679,6 +928,184 @@ def payload_of(es, V, xs, params):
     return {"exprs": es_s, "V": V_s, "x": [float(a) for a in xs], "params": store}
 
 
+# ----------------------------------------------------------------------------- audit checks that are not (expression, V) cases
+
+WIDE = [1e-9, 1e-7, 1e3, 1e9, -1e6, 1e-150, -1e-12, 2.0 ** 30]
+
+
+def wide_point(rng, n):
+    """coordinates from 1e-150 to 1e9 (checklist 1)"""
+    return [rng.choice(WIDE) * rng.choice((1.0, 1.0, -1.0)) if rng.random() < 0.6 else rng.choice(MAGS) for _ in range(n)]
+
+
+def forced_thresholds(value):
+    """context: every `_RECURSION_THRESHOLD` that the derivative compilers consult forced to `value`, caches cleared"""
+    import contextlib
+    import optyx.core.autodiff as AD
+    import optyx.core.compiler as CC
+    import optyx.core.expressions as EX
+
+    @contextlib.contextmanager
+    def cm():
+        mods = [m for m in (AD, CC, EX) if hasattr(m, "_RECURSION_THRESHOLD")]
+        old = [m._RECURSION_THRESHOLD for m in mods]
+
+        def clear():
+            for fn_ in (getattr(CC, "_compile_cached", None), getattr(AD, "_gradient_cached", None)):
+                if fn_ is not None and hasattr(fn_, "cache_clear"):
+                    fn_.cache_clear()
+        try:
+            for m in mods:
+                m._RECURSION_THRESHOLD = value
+            clear()
+            yield
+        finally:
+            for m, o in zip(mods, old):
+                m._RECURSION_THRESHOLD = o
+            clear()
+    return cm()
+
+
+def scipy_channel_failures(rng, U, count):
+    """the dicts handed to SciPy (checklist 15, 14): `_build_solver_cache(problem, problem.variables)` — objective gradient
+    for minimise and maximise, constraint `jac` for <=, >=, == written in every style — against dual numbers and against
+    central differences of the `fun` stored next to it"""
+    from optyx import Problem
+    from optyx.solvers.scipy_solver import _build_solver_cache
+
+    fails, n_checked = [], 0
+    nodes = row_nodes(rng, U)
+    wr = wrappers(U) + extended_wrappers(U)[:22]
+    for _ in range(count):
+        tag, obj = nodes[rng.randrange(len(nodes))]
+        obj = wr[rng.randrange(len(wr))][1](obj)
+        cons_src = [nodes[rng.randrange(len(nodes))] for _ in range(rng.randint(1, 3))]
+        sense = rng.choice(("minimize", "maximize"))
+        prob = Problem()
+        prob = prob.minimize(obj) if sense == "minimize" else prob.maximize(obj)
+        built = []
+        for ct, f in cons_src:
+            style = rng.choice(("f<=c", "f>=c", "c-f>=0", "eq", "c<=f", "kf-c<=0"))
+            c = {"f<=c": lambda: f <= 2.5, "f>=c": lambda: f >= -1.5, "c-f>=0": lambda: (1.0 - f) >= 0, "eq": lambda: f.eq(0.5),
+                 "c<=f": lambda: 0.25 <= f, "kf-c<=0": lambda: (2.0 * f - 3.0) <= 0}[style]
+            con = grab(c)
+            if isinstance(con, str) or not hasattr(con, "expr"):
+                continue
+            prob = prob.subject_to(con)
+            built.append((ct, style))
+        V = grab(lambda: list(prob.variables))
+        if isinstance(V, str) or not V:
+            continue
+        cache = grab(lambda: _build_solver_cache(prob, V))
+        if isinstance(cache, str):
+            fails.append({"what": f"_build_solver_cache raised {cache[6:]}", "kind": "scipy-channel", "objective": tag})
+            continue
+        xs = rand_x(rng, len(V), rng.random() < 0.5)
+        x = np.array(xs, dtype=float)
+        point = {v.name: float(a_) for v, a_ in zip(V, xs)}
+        sgn = 1.0 if sense == "minimize" else -1.0
+        try:
+            want = [sgn * oracle.ref_grad(prob.objective, point, v.name) for v in V]
+        except (oracle.NotRegular, OverflowError, ZeroDivisionError, ValueError, KeyError):
+            want = None
+        if want is not None and all(math.isfinite(w) and abs(w) < 1e8 for w in want):
+            g = grab(lambda: np.asarray(cache["grad_fn"](x), dtype=float).flatten())
+            n_checked += 1
+            if isinstance(g, str) or len(g) != len(V) or not all(oracle.close(float(a_), b_, rtol=1e-6, atol=1e-7) for a_, b_ in zip(g, want)):
+                fails.append(dict(payload_of([prob.objective], V, xs, all_params([prob.objective])), kind="scipy-channel",
+                                  what=f"objective gradient handed to SciPy ({sense}) is not ±∇objective in problem.variables order",
+                                  got=str(g)[:300], want=str(want)[:300], tag=tag))
+        for (ct, style), con, d in zip(built, prob.constraints, cache["scipy_constraints"]):
+            try:
+                cg = [oracle.ref_grad(con.expr, point, v.name) for v in V]
+            except (oracle.NotRegular, OverflowError, ZeroDivisionError, ValueError, KeyError):
+                continue
+            if not all(math.isfinite(w) and abs(w) < 1e8 for w in cg):
+                continue
+            jac = grab(lambda: np.asarray(d["jac"](x), dtype=float).flatten())
+            n_checked += 1
+            s_ = -1.0 if con.sense == "<=" else 1.0
+            ok = (not isinstance(jac, str)) and len(jac) == len(V) and \
+                all(oracle.close(float(a_), s_ * b_, rtol=1e-6, atol=1e-7) for a_, b_ in zip(jac, cg))
+            if ok:   # and it is the derivative of the `fun` stored in the same dict (central differences)
+                for j in range(len(V)):
+                    h = 1e-6 * max(1.0, abs(xs[j]))
+                    xp, xm = x.copy(), x.copy()
+                    xp[j] += h; xm[j] -= h
+                    fd = grab(lambda: (float(d["fun"](xp)) - float(d["fun"](xm))) / (2 * h))
+                    if isinstance(fd, str) or not oracle.close(float(jac[j]), fd, rtol=1e-4, atol=1e-5):
+                        ok = False
+                        break
+            if not ok:
+                fails.append(dict(payload_of([con.expr], V, xs, all_params([con.expr])), kind="scipy-channel",
+                                  what=f"constraint jac handed to SciPy is not the derivative of its fun ({style}, sense {con.sense})",
+                                  got=str(jac)[:300], want=str([s_ * b_ for b_ in cg])[:300], tag=ct))
+    return fails, n_checked
+
+
+def lifetime_failures(rng, rounds):
+    """object lifetime and history (checklist 10, 12): models built, queried (degree, gradient, compiled value) BEFORE the
+    derivative compilers see them, evaluated and DROPPED, many rounds, the same variable names in unrelated models; the
+    module-level caches (lru_cache keyed by object identity / names) must never serve one model's closure to another"""
+    import gc
+    import optyx.core.autodiff as AD
+    import optyx.core.compiler as CC
+
+    fails, n = [], 0
+    for r in range(rounds):
+        U = gen.Universe(rng)
+        e = gen.rand_expr(rng, U, rng.randint(1, 3), safe=True)
+        V = gen.expr_vars(e)
+        if not V:
+            continue
+        rng.shuffle(V)
+        if r % 2 == 0:
+            grab(lambda: e.degree)
+            grab(lambda: AD.gradient(e, V[0]))
+            grab(lambda: CC.compile_expression(e, V)(np.array(rand_x(rng, len(V), True))))
+        xs = rand_x(rng, len(V), r % 3 != 0)
+        f, c, _ = check_numeric([e], V, xs)
+        n += c
+        for g in f:
+            try:
+                g.update(payload_of([e], V, xs, all_params([e])))
+            except Unsupported:
+                pass
+            g["tag"] = "lifetime"
+            fails.append(g)
+        del e, V, U
+        if r % 20 == 0:
+            gc.collect()
+    return fails, n
+
+
+def user_array_failures(U):
+    """user-supplied arrays (checklist 9): coefficient vectors / matrices handed to LinearCombination / QuadraticForm must be
+    bit-identical after every compile and call"""
+    import optyx.core.autodiff as AD
+    import optyx.core.compiler as CC
+    from optyx.core import vectors as Vc
+    from optyx.core import matrices as Mx
+
+    x = U.x
+    fails = []
+    arrays = [np.array([2.0, -1.0, 0.5]), np.array([1, -2, 3]), np.arange(6.0)[::2], np.array([200, 100, 250], dtype=np.uint8)]
+    mats = [np.array([[1.0, 2.0, 0.0], [0.5, 1.0, -1.0], [0.0, 3.0, 2.0]]), np.asfortranarray(np.arange(9.0).reshape(3, 3)),
+            np.array([[1, 2, 0], [0, 1, 0], [1, 0, 3]])]
+    pt = np.array([0.75, -1.25, 2.0])
+    for arr in arrays + mats:
+        before = arr.copy()
+        base = arr.base.copy() if arr.base is not None else None
+        e = Vc.LinearCombination(arr, x) if arr.ndim == 1 else Mx.QuadraticForm(x, arr)
+        for _ in range(2):
+            quiet(lambda: (AD.compile_jacobian([e, 2.0 * e, 1.0 - e], list(x))(pt), CC.compile_gradient(e, list(x))(pt),
+                           AD.compile_hessian(e, list(x))(pt), AD.compute_jacobian([e], list(x))))
+        if not (np.array_equal(arr, before) and arr.dtype == before.dtype and (base is None or np.array_equal(arr.base, base))):
+            fails.append({"what": "a user-supplied coefficient array was modified by compiling / calling derivatives",
+                          "kind": "user-array", "before": before.tolist(), "after": arr.tolist()})
+    return fails
+
+
 # ----------------------------------------------------------------------------- run
 
 
@@ -690,15 +1117,22 @@ def run(ctx) -> core.Report:
                            "a variable missing} × slices (overlapping, stepped, reversed, matrix rows/columns, symmetric) × "
                            "BinaryOp wrappers; multi-row lists; seeded random expression lists.  non-trivial = distinct "
                            "(expressions, V) whose Jacobian is not identically the constant 0")
+    FULL[0] = thorough
+    AUDIT_SKIPPED.clear()
     cases = cell_cases(rng) + random_cases(rng, 20000 if thorough else 700, 5 if thorough else 3)
+    for k, v in AUDIT_SKIPPED.items():
+        rep.skipped[k] = rep.skipped.get(k, 0) + v
 
     lines, metas = [], []
+    oracle_only = []
     for tag, es, V, U in cases:
         try:
             params = all_params(es)
             es_s, V_s, store = ser_case(es, V, params)
         except Unsupported as ex:
-            rep.skipped["unsupported:" + str(ex)] = rep.skipped.get("unsupported:" + str(ex), 0) + 1
+            # outside the Lean syntax (bool constants, element-wise nodes, …): the property oracle still applies
+            rep.skipped["model-unsupported(oracle only):" + str(ex)] = rep.skipped.get("model-unsupported(oracle only):" + str(ex), 0) + 1
+            oracle_only.append((tag, es, V))
             continue
         pos = rng.random() < 0.6
         xs = rand_x(rng, len(V), pos)
@@ -799,7 +1233,7 @@ def run(ctx) -> core.Report:
         if tag.startswith("comp:"):
             more = sign_points(rng, len(V))
         elif V and covered and "orders" not in tag:
-            more = [[rng.choice((1.0, -1.0)) * rng.choice(MAGS) for _ in V]]
+            more = [[rng.choice((1.0, -1.0)) * rng.choice(MAGS) for _ in V], wide_point(rng, len(V))]
         else:
             more = []
         for pt in [xs] + more:
@@ -828,6 +1262,43 @@ def run(ctx) -> core.Report:
                         rep.skipped["sequence-at-irregular-point"] = rep.skipped.get("sequence-at-irregular-point", 0) + 1
         if len(rep.samples) < 6 and single and outs[idx + 3] != "none" and len(outs[idx]) < 220:
             rep.samples.append({"tag": tag, "V": [v.name for v in V], "rows": outs[idx], "path": outs[idx + 1]})
+
+    def record(fails, tag=None):
+        for f in fails:
+            if tag and "tag" not in f:
+                f["tag"] = tag
+            rep.oracle_failures.append(f)
+
+    # cases the Lean syntax cannot express: property oracle + call sequences only
+    for tag, es, V in oracle_only:
+        if not (es and V):
+            continue
+        for pt in [rand_x(rng, len(V), True), rand_x(rng, len(V), False), wide_point(rng, len(V))]:
+            fails, checked, _ = check_numeric(es, V, pt)
+            rep.histogram["oracle_entries"] = rep.histogram.get("oracle_entries", 0) + checked
+            for f in fails:
+                f["exprs_repr"] = [repr(e)[:200] for e in es]; f["V_names"] = [v.name for v in V]; f["x"] = pt
+            record(fails, tag)
+    # every cell again with the recursion thresholds forced low (explicit-stack differentiator / compiler on every tree)
+    step = 7 if not thorough else 2
+    with forced_thresholds(2):
+        for tag, es, V, xs, params, idx, single in metas[::step]:
+            if not (es and V) or tag.startswith("deep"):
+                continue
+            fails, checked, _ = check_numeric(es, V, xs)
+            rep.histogram["oracle_entries_thresholds_forced"] = rep.histogram.get("oracle_entries_thresholds_forced", 0) + checked
+            for f in fails:
+                f.update(payload_of(es, V, xs, params)); f["thresholds_forced"] = 2
+            record(fails, tag + "|threshold=2")
+    # channels and histories that are not (expression, V) cases
+    U0 = gen.Universe(rng)
+    f1, n1 = scipy_channel_failures(rng, U0, 400 if thorough else 60)
+    rep.histogram["scipy_channel_checks"] = n1
+    record(f1)
+    f2, n2 = lifetime_failures(rng, 1500 if thorough else 150)
+    rep.histogram["lifetime_entries"] = n2
+    record(f2)
+    record(user_array_failures(U0), "user-arrays")
     return rep
 
 
@@ -906,7 +1377,17 @@ def replay(payload) -> bool:
     f = payload["failure"]
     if f.get("kind") == "call-sequence":
         return replay_sequence(f)
+    if "exprs" not in f:
+        print("this failure has no serialisable expression (outside the Lean syntax); see its repr fields:", {k: f[k] for k in f if k != "got"})
+        return False
     es, V, xs = rebuild(f)
+    if f.get("thresholds_forced") is not None:
+        with forced_thresholds(int(f["thresholds_forced"])):
+            fails, checked, skipped = check_numeric(es, V, xs)
+        print("entries checked (thresholds forced):", checked)
+        for g in fails:
+            print("FAIL:", g)
+        return not fails
     fails, checked, skipped = check_numeric(es, V, xs)
     print("entries checked:", checked, "rows skipped:", skipped)
     for g in fails:
